@@ -130,7 +130,7 @@ func TestMain(m *testing.M) { os.Exit(m.Run()) }
 func TestProp(t *testing.T) {
 	defer rec.MustWrite()
 	rec.Rule("inputs: repository samples (first 256 KiB) and encoder output in every container, as they are, truncated, or with 1-4 hostile edits (so that error paths are compared too); every entry point incl. PreviewCR3, ScanPngHeader, exif2.Parse, the JPEG / ISOBMFF / TIFF scanners and sniffing; " +
-		"chunk schedules (legal per io.Reader: n > 0 or an error): all one byte, random 1..7, random 1..4096, alternating 1/4095, sizes on and around the 32/1024/4096-byte buffer boundaries, a fixed small size, halving sizes; optionally the last bytes delivered together with io.EOF. " +
+		"chunk schedules (legal per io.Reader: n > 0 or an error): all one byte, random 1..7, random 1..4096, alternating 1/4095, sizes on and around the 32/1024/4096-byte buffer boundaries, a fixed small size, halving sizes; optionally the last bytes delivered together with io.EOF; exhaustive: every uniform chunk size 1..1100 (quick) / 4200 (thorough) on one generated record in each of the five containers, through every entry point of the container. " +
 		"oracle: result digest and error text equal those obtained with an in-memory reader. non-trivial = at least one Read returned fewer bytes than asked while more were available AND the decode got past type identification; distinct by (entry, input, schedule)")
 	rec.Assume("inputs on which the in-memory call panics are C01's subject; here only that both readers behave alike is compared")
 	pbt.RegressDir(t, rec)
@@ -155,6 +155,37 @@ func TestProp(t *testing.T) {
 				if f := eval(c); f != nil {
 					if pbt.Report(t, rec, chk.Name, c, f) {
 						return
+					}
+				}
+			}
+		}
+	}
+	// every uniform chunk size 1..N for one generated record in every container (block behind ~3 KB of filler, so
+	// that the file spans more than one reader buffer)
+	{
+		base := rapid.Custom(func(rt *rapid.T) *gen.ExifFile {
+			return gen.GenExif(rt, gen.Options{Unbuffered: true, MaxForeign: 3})
+		}).Example(int(rec.Env.Seed%100000)*4 + 1)
+		files := []struct {
+			kind string
+			data []byte
+		}{{"tiff", base.Reencode(3000).Enc.II}, {"jpeg", gen.PadJPEG(base.Enc.MM, 3000)}, {"png", gen.PadPNG(base.Enc.II, 3000)}, {"cr3", gen.PadCR3(base.Enc.II, 3000, 1)}, {"heif", gen.PadHEIF(base.Enc.MM, 3000, 2)}}
+		idx := 0
+		for _, fl := range files {
+			if fl.kind == "jpeg" && len(base.Enc.MM) > 60000 {
+				continue
+			}
+			for _, entry := range gen.EntriesFor(fl.kind) {
+				for sz := 1; sz <= rec.Env.Pick(1100, 4200); sz++ {
+					idx++
+					if idx%rec.Env.Shards != rec.Env.Shard {
+						continue
+					}
+					c := Case{Entry: entry, Input: fl.data, Chunks: []int{sz}, DataEOF: sz%2 == 0, Origin: "uniform-chunk-sweep:" + fl.kind}
+					if f := eval(c); f != nil {
+						if pbt.Report(t, rec, chk.Name, c, f) {
+							return
+						}
 					}
 				}
 			}
